@@ -39,7 +39,7 @@ def _fs_rev(*xs):
 POOLSETS: dict[str, dict[str, list]] = {
     # plain values, correctly typed for the zoo annotations
     "plain": {
-        "str": ["x", "y", "z"],
+        "str": ["ab", "abc", "b"],
         "int": [0, 1, 2],
         "optstr": [None, "c", "d"],
         "any": [0, 1, "s"],
@@ -88,6 +88,7 @@ RICH = {
 SEPY = "):y=<class 'str'>("
 for _ps in POOLSETS.values():
     _ps.update(RICH)
+    _ps["fixed7"] = [7]
 for _ps in POOLSETS.values():
     _ps["sepx"] = ["1", "1" + SEPY + "2", "q"]
     _ps["sepy"] = ["3", "2" + SEPY + "3", "q"]
@@ -96,7 +97,7 @@ for _ps in POOLSETS.values():
 VARIANTS: dict[tuple[str, str, int], object] = {}
 
 POOLSETS["sets"] = {
-    "sepx": ["a", "b", "c"], "sepy": ["a", "b", "c"],
+    "sepx": ["a", "b", "c"], "sepy": ["a", "b", "c"], "fixed7": [7], **RICH,
     "str": ["x", "y", "z"],
     "int": [0, 1, 2],
     "optstr": [None, "c", "d"],
@@ -107,7 +108,7 @@ VARIANTS[("sets", "any", 1)] = _fs_rev(8, 16)
 VARIANTS[("sets", "any", 2)] = _fs_rev("ab", "ba", "c")
 
 # non-init property defaults of the zoo (atom 0 is the dataclass default)
-FIXED = {("Many", "ninit"): 7, ("SubMany", "ninit"): 7}
+FIXED: dict = {}
 
 
 def value(poolset: str, pool: str, atom: int, variant: int = 0):
